@@ -323,5 +323,42 @@ def oracles(ctx, deep):
                 out.append(v)
         finally:
             communication.get_rank, communication.get_world_size = old
+    # the rank-strided infinite stream: the ranks' streams interleave to one common stream made of successive permutations of
+    # range(size), on every iteration of the same sampler objects (also after a partly consumed earlier iteration)
+    for _ in range(ctx.n(60, 600) * (2 if deep else 1)):
+        size, world = ctx.rng.randint(1, 9), ctx.rng.randint(1, 5)
+        shuffle = ctx.rng.random() < 0.8
+        sd = ctx.rng.randrange(1000)
+        takes = [ctx.rng.randint(1, 3 * size) for _ in range(ctx.rng.randint(1, 3))]
+        runs += 1
+        old = (communication.get_rank, communication.get_world_size)
+        try:
+            samplers = []
+            for r in range(world):
+                communication.get_rank = lambda r=r: r
+                communication.get_world_size = lambda: world
+                samplers.append(S.DistributedSampler(size, shuffle=shuffle, seed=sd))
+            for it, take in enumerate(takes):
+                per_rank = [[int(i) for i in itertools.islice(iter(s_), take)] for s_ in samplers]
+                stream = [per_rank[j % world][j // world] for j in range(take * world)]
+                bad = None
+                for b in range(len(stream) // size):
+                    blk = stream[b * size : (b + 1) * size]
+                    if sorted(blk) != list(range(size)) or (not shuffle and blk != list(range(size))):
+                        bad = (b, blk)
+                        break
+                if bad:
+                    v = Violation("rank-stream-partition", "DistributedSampler(size %d, shuffle %s) on %d ranks, iteration %d of the same sampler objects (after taking %s per rank): the ranks' streams do not interleave to successive permutations of the dataset (block %d is %s)" % (size, shuffle, world, it + 1, takes[:it], bad[0], bad[1]), {"size": size, "world": world, "shuffle": shuffle, "seed": sd, "takes": takes, "iteration": it + 1, "per_rank": per_rank}, {"kind": "rank-stream", "iteration": "first" if it == 0 else "later"})
+                    if v.key() not in seen:
+                        seen.add(v.key())
+                        out.append(v)
+                    break
+        except Exception as e:  # noqa
+            v = Violation("rank-stream-partition", "DistributedSampler raises %s for size %d world %d" % (type(e).__name__, size, world), {"size": size, "world": world}, {"kind": "rank-stream-raises"})
+            if v.key() not in seen:
+                seen.add(v.key())
+                out.append(v)
+        finally:
+            communication.get_rank, communication.get_world_size = old
     ctx.oracle_runs = runs
     return out
